@@ -29,7 +29,8 @@ RULE = (
 ASSUMPTIONS = ["asyncio.StreamReader semantics are CPython 3.12's", "reference framing in this module/refwire"]
 FLOORS = {"quick": {"streams_read": 100000, "exhaustive_cutsets": 2 ** 15 + 2 ** 16 + 2 ** 17, "truncations": 1200,
                     "corruptions": 400, "schedule_A": 12000, "schedule_B": 100000, "messages_compared": 100000,
-                    "datagram_decoder_agreement": 2000, "streams_read_next_to_a_second_connection": 2000}}
+                    "datagram_decoder_agreement": 2000, "streams_read_next_to_a_second_connection": 2000,
+                    "streams_read_through_a_subclass": 10000}}
 
 
 def expected_sequence(b: bytes):
@@ -140,6 +141,18 @@ def read_stream(loop, H, chunks, schedule):
 
 
 _LOOPS = [0]
+_SUB = {}
+
+
+def _subclass(H):
+    if "c" not in _SUB:
+        class AppMessage(H.SOMEIPHeader):
+            @property
+            def request_id(self):
+                return (self.client_id << 16) | self.session_id
+
+        _SUB["c"] = AppMessage
+    return _SUB["c"]
 
 
 async def _consume(H, R, results):
@@ -147,13 +160,24 @@ async def _consume(H, R, results):
     # instead of reading until the end-of-stream error; at a clean end both see the same messages
     _LOOPS[0] += 1
     by_helper = _LOOPS[0] % 4 == 0
+    via_sub = _LOOPS[0] % 5 == 1
+    if via_sub:
+        _SUB["n"] = _SUB.get("n", 0) + 1
     if True:
         while True:
             if by_helper and R.at_eof():
                 results.append(("eof",))
                 return
             try:
-                m = await R.read()
+                if via_sub:
+                    # an application decodes through its own subclass of the message class, on the stream path as on the datagram path
+                    sub = _subclass(H)
+                    m = await sub.read(R.reader)
+                    if m is not None and type(m) is not sub:
+                        results.append(("other-exception", f"{sub.__name__}.read() returned a {type(m).__name__}"))
+                        return
+                else:
+                    m = await R.read()
             except H.IncompleteReadError:
                 results.append(("incomplete",))
                 return
@@ -230,6 +254,7 @@ def check(loop, H, total: bytes, cuts, schedule, ctx, replay, compare_datagram=F
                 stream_len=len(total), cuts=list(cuts)[:40]), replay)
     got = fix_eof(got, total, exp)
     ctx.count("streams_read")
+    ctx.count("streams_read_through_a_subclass", _SUB.pop("n", 0))
     ctx.count("schedule_" + schedule)
     ctx.count("messages_compared", sum(1 for e in exp if e[0] == "msg"))
     ctx.note("terminal_outcomes", exp[-1][0])
